@@ -21,8 +21,24 @@ STR_MC = {"quick": [dict(module="MC_Str.tla", cfg="MC_Str_quick.cfg", workers=16
           "thorough": [dict(module="MC_Str.tla", cfg="MC_Str_full.cfg", workers=16, timeout=3000)]}
 STR_SIM = {"quick": [dict(module="MC_Str.tla", cfg="MC_Str_sim.cfg", num=40, depth=150, procs=4)],
            "thorough": [dict(module="MC_Str.tla", cfg="MC_Str_sim.cfg", num=600, depth=200, procs=12)]}
-STR_SWEEP = {"quick": [dict(module="MC_Str.tla", cfg="MC_Str_sweep.cfg")], "thorough": [dict(module="MC_Str.tla", cfg="MC_Str_sweep.cfg")]}
-REG_SWEEP = {"quick": [dict(module="MC_Reg.tla", cfg="MC_Reg_sweep.cfg")], "thorough": [dict(module="MC_Reg.tla", cfg="MC_Reg_sweep.cfg")]}
+STR_SWEEP = {"quick": [dict(module="SW_Str.tla", cfg="SW_Str.cfg")], "thorough": [dict(module="SW_Str.tla", cfg="SW_Str.cfg")]}
+REG_SWEEP = {"quick": [dict(module="SW_Reg.tla", cfg="SW_Reg.cfg")], "thorough": [dict(module="SW_Reg.tla", cfg="SW_Reg.cfg")]}
+FEE_MC = {"quick": [dict(module="MC_Fee.tla", cfg="MC_Fee_quick.cfg", workers=16, timeout=600)],
+          "thorough": [dict(module="MC_Fee.tla", cfg="MC_Fee_full.cfg", workers=16, timeout=3000)]}
+FEE_SIM = {"quick": [dict(module="MC_Fee.tla", cfg="MC_Fee_sim.cfg", num=30, depth=150, procs=4)],
+           "thorough": [dict(module="MC_Fee.tla", cfg="MC_Fee_sim.cfg", num=500, depth=200, procs=12)]}
+FEE_SWEEP = {"quick": [dict(module="SW_Fee.tla", cfg="SW_Fee.cfg")], "thorough": [dict(module="SW_Fee.tla", cfg="SW_Fee.cfg")]}
+AUTH_SWEEP = {"quick": [dict(module="MC_Auth.tla", cfg="MC_Auth.cfg")], "thorough": [dict(module="MC_Auth.tla", cfg="MC_Auth.cfg")]}
+PAR_SWEEP = {"quick": [dict(module="MC_Par.tla", cfg="MC_Par.cfg")], "thorough": [dict(module="MC_Par.tla", cfg="MC_Par.cfg")]}
+
+
+def both(*dicts):
+    out = {"quick": [], "thorough": []}
+    for d in dicts:
+        for t in out:
+            out[t] += d.get(t, [])
+    return out
+
 
 
 def rnd(profile, quick, thorough):
@@ -34,8 +50,20 @@ PLANS = {
     "C03": dict(mc=ENT_MC, sim=ENT_SIM, random=rnd("ent", (300, 3), (2000, 20)),
                 rule="TLC exhaustive on MC_Ent (all interleavings of raise/decide/whitelist/gov param change/time advance in small scope); behaviours = TLC-simulated schedules + seeded random histories executed on the real app; non-trivial = a recorded step (one ABCI call) validated against Chain!Step and all C03 monitors",
                 assumptions=COMMON_ASSUME),
-    "C04": dict(mc=ENT_MC, sim=ENT_SIM, random=rnd("ent", (300, 3), (2000, 20)),
-                rule="as C03; view = locked/spent books, totals, escrow balance, registered module invariant", assumptions=COMMON_ASSUME),
+    "C04": dict(mc=FEE_MC, sim=both(FEE_SIM, ENT_SIM), sweep=FEE_SWEEP, random=rnd("ent", (300, 3), (2000, 20)),
+                rule="TLC exhaustive on MC_Fee (orders completing, then fee-paying registry txs with every relation of locked/liquid to the fee, exact/higher/missing/multi-denomination fees, bad signatures, k-th message failing, sends to escrow); view = locked/spent books, totals, escrow balance, registered module invariant", assumptions=COMMON_ASSUME),
+    "C05": dict(mc=FEE_MC, sim=FEE_SIM, sweep=FEE_SWEEP, random=both(rnd("ent", (300, 4), (2000, 20)), rnd("mix", (200, 2), (1500, 10))),
+                rule="as C04 plus vesting purchasers in the random histories; monitors: locked drops only by min(fee, locked) in a registry tx of the payer and equals the spent increase; completion never raises spendable", assumptions=COMMON_ASSUME),
+    "C02": dict(mc=both(FEE_MC), sim=both(FEE_SIM, ENT_SIM), sweep=both(FEE_SWEEP, AUTH_SWEEP), random=rnd("mix", (400, 3), (2500, 20)),
+                rule="supply and sum of ALL balances (iteration incl. unmodelled accounts) after every step of mixed histories; mint/burn events of every ABCI response equal the supply delta; supply changes only in BeginBlock by the completed orders' amounts", assumptions=COMMON_ASSUME),
+    "C13": dict(sweep=AUTH_SWEEP, random=rnd("mix", (300, 2), (1500, 10)),
+                rule="TLC breadth-first sweep MC_Auth: every message type x every account as signer x every account as named address in three encodings (foreign key, proper signature, Exec wrapper) from a prepared state; each behaviour replayed on the real app; state digest before/after compared", assumptions=COMMON_ASSUME),
+    "C14": dict(mc=both(FEE_MC, ENT_MC), sim=both(FEE_SIM, ENT_SIM), sweep=both(FEE_SWEEP, PAR_SWEEP), random=rnd("mix", (400, 3), (2500, 20)),
+                rule="begin/end block and commit wrapped in recover (a panic is the observation halted); failed and panicking txs compared on the full projection (only ante effects may remain); multi-message txs with the k-th message failing", assumptions=COMMON_ASSUME),
+    "C16": dict(sweep=PAR_SWEEP, sim=ENT_SIM, random=rnd("mix", (300, 2), (1500, 10)),
+                rule="TLC breadth-first sweep MC_Par: parameter structures with each field at/inside/outside its bounds through a real governance proposal, followed by probes of every dependent rule; stored parameters re-validated against the stated rules in every observed state", assumptions=COMMON_ASSUME),
+    "C17": dict(mc=FEE_MC, sim=FEE_SIM, sweep=FEE_SWEEP, random=rnd("mix", (300, 3), (2000, 15)),
+                rule="at every block boundary of the corpus the enterprise supply queries (SupplyOf every denomination, EnterpriseSupply, TotalUnlocked, TotalSupply with every page size in key and offset mode) are recorded and checked against bank supply and total locked of the same state", assumptions=COMMON_ASSUME),
     "C07": dict(mc=REG_MC, sim=REG_SIM, sweep=REG_SWEEP, random=rnd("reg", (300, 3), (2000, 20)),
                 rule="TLC exhaustive on MC_Reg (registrations, records at lower/equal/next/gapped/huge heights by owners and strangers, purchases incl. Exec-wrapped and huge, gov limit changes); TLC-simulated + seeded random schedules executed on the real app; every record ever accepted is re-queried after every step", assumptions=COMMON_ASSUME),
     "C08": dict(mc=REG_MC, sim=REG_SIM, sweep=REG_SWEEP, random=rnd("reg", (300, 3), (2000, 20)),
